@@ -28,6 +28,13 @@ pub const ROLE_CLIENT: u8 = 2;
 pub const ROLE_PUB: u8 = 3;
 
 pub const PHC_REFID: u32 = 0x50484330; // "PHC0"
+/// refclock names a run may configure (the daemon's value goes through its own parser,
+/// `clock_bound_d::refid_to_u32`; chronyd's and the oracle's through `phc_refid_of`)
+pub const PHC_NAMES: [&str; 8] = ["PHC0", "PHC0", "PHC", "EC2", "FACE", "0", "AC1", "P"];
+/// chrony's encoding of a refclock name: the ASCII characters, right-aligned in a big-endian word
+pub fn phc_refid_of(idx: u8) -> u32 {
+    PHC_NAMES[idx as usize % PHC_NAMES.len()].bytes().fold(0u32, |acc, b| (acc << 8) | b as u32)
+}
 
 pub fn rule_text(prop: &str) -> String {
     let common = "Cases are simulated runs of the daemon pipeline under virtual time: the real thread_manager::run (poller, writer, FSM, ShmWriter) polls a scripted chronyd whose reports are valid at their reply instant against a world model of the oscillator (drift within the configured rate), is killed/restarted or loses worker threads per a seeded fault plan, while real clients (ClockBoundClient, raw ShmReader + ClockErrorBound::now, C client via clockbound.h) ask at seeded, threshold-biased instants; scheduling, step delays, coarse-clock tick and lag come from a seeded scheduler. Two runs are distinct when the hash of their sequence of (thread role, operation, location) differs. ";
